@@ -123,3 +123,35 @@ func zzC11ReportedParametersAreTheServers() {
 	verifAssert(st.NegotiatedProtocol == sp, "reported-alpn-is-the-servers")
 	verifAssert(!st.DidResume, "no-resumption-without-a-session")
 }
+
+//verif:harness C11 server_reports_the_wire_sni unwind=4000 paths=2000
+//verif:stub (*utls.Conn).sendAlert zzStubSendAlert
+//verif:stub (crypto.Hash).New zzStubHashNew
+//verif:stub (*crypto/ecdh.PrivateKey).ECDH zzStubECDH
+//verif:expect tls13 tls12
+//verif:assume ECDH is opaque; certificate selection is not reached (TLS 1.2: the name is recorded before it; a later error is irrelevant here)
+//verif:doc The server's half of "both sides report the same server name": serverHandshakeStateTLS13.processClientHello and serverHandshakeState.processClientHello on a ClientHello whose server_name is lower-case, mixed-case or upper-case: the name the server's ConnectionState reports is byte for byte the name on the wire (which is what the client reports), not a normalised form.
+func zzC11ServerReportsTheWireSNI() {
+	zzAlerts = nil
+	names := []string{"host.example", "MiXeD.Example", "UPPER.EXAMPLE"}
+	name := names[verifChoice("sni", len(names))]
+	if verifBool("tls13") {
+		c := &Conn{config: &Config{Rand: zzRandReader{}, Time: zzFixedTime}, vers: VersionTLS13}
+		ch := &clientHelloMsg{vers: VersionTLS12, random: make([]byte, 32), sessionId: make([]byte, 32), cipherSuites: []uint16{TLS_AES_128_GCM_SHA256},
+			compressionMethods: []uint8{compressionNone}, supportedVersions: []uint16{VersionTLS13}, supportedCurves: []CurveID{X25519}, serverName: name,
+			keyShares: []keyShare{{group: X25519, data: make([]byte, 32)}}, supportedSignatureAlgorithms: []SignatureScheme{ECDSAWithP256AndSHA256}}
+		hs := &serverHandshakeStateTLS13{c: c, clientHello: ch}
+		err := hs.processClientHello()
+		verifAssert(err == nil, "client-hello-accepted")
+		verifAssert(c.ConnectionState().ServerName == name, "server-reports-the-name-on-the-wire")
+		verifReach("tls13")
+		return
+	}
+	c := &Conn{config: &Config{Rand: zzRandReader{}, Time: zzFixedTime}, vers: VersionTLS12}
+	ch := &clientHelloMsg{vers: VersionTLS12, random: make([]byte, 32), cipherSuites: []uint16{TLS_ECDHE_RSA_WITH_AES_128_GCM_SHA256}, compressionMethods: []uint8{compressionNone},
+		supportedCurves: []CurveID{X25519}, supportedPoints: []uint8{0}, serverName: name, supportedSignatureAlgorithms: []SignatureScheme{PSSWithSHA256}}
+	hs := &serverHandshakeState{c: c, clientHello: ch}
+	_ = hs.processClientHello() // may stop later for want of a certificate; the name is recorded before
+	verifAssert(c.ConnectionState().ServerName == name, "server-reports-the-name-on-the-wire")
+	verifReach("tls12")
+}
